@@ -1408,6 +1408,33 @@ def gen_upgrade_body_case(rng, fixed=None):
     return {"suite": "upgrade", "beh": beh, "steps": steps, "ka": KA, "linger": LINGER, "nreq": 2}
 
 
+def gen_upgrade_bigtail_case(rng, fixed=None):
+    """A declined Upgrade request whose handler is still running while at least read_bufsize bytes arrive behind it
+    (buffered in _message_tail: the transport is paused) - and those bytes hold no complete request head, so settling
+    the declined upgrade parses nothing: reading has to be resumed there, or the rest of the pipelined request is
+    never read."""
+    bufsize = 256
+    if fixed is not None:
+        pad, same_read, tailreq = fixed
+    else:
+        pad = rng.choice([100, 200, 230, 256, 300, 1000, 3000])
+        same_read = rng.random() < 0.5
+        tailreq = rng.random() < 0.3           # a complete request in front of the partial one
+    upg = _plain(0, True)
+    i = 1
+    front = b""
+    if tailreq:
+        front = _plain(i)
+        i += 1
+    big = (f"GET /r/{i} HTTP/1.1\r\nHost: x\r\nX-Pad: " + "p" * pad).encode()
+    rest = b"\r\n\r\n"
+    last = _plain(i + 1)
+    steps = [["data", (upg + front + big).hex()]] if same_read else [["data", upg.hex()], ["data", (front + big).hex()]]
+    steps += [["rel"], ["data", rest.hex()], ["data", last.hex()], ["drain"]]
+    return {"suite": "upgrade", "beh": {"0": {"kind": "ok", "block": True}}, "steps": steps, "ka": KA, "linger": LINGER,
+            "nreq": i + 2, "read_bufsize": bufsize}
+
+
 def special_fixed_cases(rng):
     out = [gen_upgrade_case(rng, fixed=f) for f in (
         [[True, False, False], [True]], [[True, False], [False], [True]], [[True, False, False], [True, False]],
@@ -1426,6 +1453,8 @@ def special_fixed_cases(rng):
         out.append(gen_srvshutdown_case(rng, fixed=f))
     out.append(gen_upgrade_body_case(rng, fixed=(5, False)))
     out.append(gen_upgrade_body_case(rng, fixed=(5, True)))
+    for f in ((300, True, False), (300, False, False), (1000, True, True), (200, True, False), (256, False, True)):
+        out.append(gen_upgrade_bigtail_case(rng, fixed=f))
     # a transport that cannot pause: a burst that fills the queue behind a blocked handler, then one request per read
     steps = [["data", b"".join(_plain(i) for i in range(33)).hex()]] + [["data", _plain(i).hex()] for i in range(33, 75)] + [["rel"]]
     out.append({"suite": "pause", "beh": {"0": {"kind": "ok", "block": True}}, "steps": steps, "ka": KA, "linger": LINGER,
@@ -1447,7 +1476,8 @@ def suite_special(ctx):
     cases += special_fixed_cases(rng)
     n = 440 if ctx.quick else 8800
     gens = (gen_upgrade_case, gen_pause_case, gen_ws_case, gen_latebad_case, gen_badenc_case, gen_shutdown_case,
-            gen_nonutf8_case, gen_srvshutdown_case, gen_upgrade_body_case, gen_halfclose_case, gen_burst_case)
+            gen_nonutf8_case, gen_srvshutdown_case, gen_upgrade_body_case, gen_halfclose_case, gen_burst_case,
+            gen_upgrade_bigtail_case)
     for k in range(n):
         cases.append(gens[k % len(gens)](rng))
     for c in cases:
